@@ -18,7 +18,7 @@ def ref_checksum(data: bytes) -> bytes:
     return b"%03d" % (sum(data) % 256)
 
 
-def ref_encode(msgtype, fields, begin=b"FIX.4.4") -> bytes:
+def ref_encode(msgtype, fields, begin=b"FIX.4.4", pad=0) -> bytes:
     """fields: list of (tag, value) in wire order (header fields included by caller)."""
 
     def b(x):
@@ -27,19 +27,19 @@ def ref_encode(msgtype, fields, begin=b"FIX.4.4") -> bytes:
     body = b"35=" + b(msgtype) + SOH
     for t, v in fields:
         body += b(t) + b"=" + b(v) + SOH
-    head = b"8=" + begin + SOH + b"9=" + str(len(body)).encode() + SOH
+    head = b"8=" + begin + SOH + b"9=" + str(len(body)).zfill(pad).encode() + SOH  # pad: fixed-width, zero-padded BodyLength
     pre = head + body
     return pre + b"10=" + ref_checksum(pre) + SOH
 
 
 def ref_msg(msgtype, sender, target, seq, fields=(), sending_time=b"20230101-00:00:00.000",
-            possdup=False, orig_time=None):
+            possdup=False, orig_time=None, pad=0):
     """A complete frame with a standard header, as a counterparty would send it."""
     hdr = [(49, sender), (56, target), (34, seq), (52, sending_time)]
     if possdup:
         hdr.append((43, "Y"))
         hdr.append((122, orig_time or sending_time))
-    return ref_encode(msgtype, hdr + list(fields))
+    return ref_encode(msgtype, hdr + list(fields), pad=pad)
 
 
 def ref_check_frame(frame: bytes, begin=b"FIX.4.4"):
